@@ -33,6 +33,26 @@ type Op struct {
 	Sub *Op      `json:"sub,omitempty"`
 	Acc uint64   `json:"acc,omitempty"` // accessor-subset seed for K=="sub"
 	N   int      `json:"n,omitempty"`   // accessor-subset size
+	J   []int    `json:"j,omitempty"`   // [year, term 0..23, offset in s]: A[0..5] is the instant of that solar term plus the offset
+}
+
+var termNames = []string{"冬至", "小寒", "大寒", "立春", "雨水", "惊蛰", "春分", "清明", "谷雨", "立夏", "小满", "芒种", "夏至", "小暑", "大暑", "立秋", "处暑", "白露", "秋分", "寒露", "霜降", "立冬", "小雪", "大雪"}
+
+// atTerm resolves J: the moment arguments become the instant of a solar term (as the library's own table gives it)
+// plus a few seconds - the births "exactly at a term" that a random moment never is.
+func (o Op) atTerm() Op {
+	if len(o.J) != 3 {
+		return o
+	}
+	tbl := calendar.NewSolarFromYmd(o.J[0], 6, 15).GetLunar().GetJieQiTable()
+	s := tbl[termNames[((o.J[1]%24)+24)%24]]
+	t := time.Date(s.GetYear(), time.Month(s.GetMonth()), s.GetDay(), s.GetHour(), s.GetMinute(), s.GetSecond(), 0, time.UTC).Add(time.Duration(o.J[2]) * time.Second)
+	a := []int{t.Year(), int(t.Month()), t.Day(), t.Hour(), t.Minute(), t.Second()}
+	if len(o.A) > 6 {
+		a = append(a, o.A[6:]...)
+	}
+	o.A, o.J = a, nil
+	return o
 }
 
 func (o Op) String() string {
@@ -50,6 +70,10 @@ func (o Op) String() string {
 	}
 	for _, f := range o.F {
 		b.WriteString(sep + f)
+		sep = ","
+	}
+	if len(o.J) == 3 {
+		b.WriteString(fmt.Sprintf("%s@term(%d,%d,%+ds)", sep, o.J[0], o.J[1], o.J[2]))
 		sep = ","
 	}
 	if o.Sub != nil {
@@ -100,6 +124,7 @@ type YunResult struct {
 
 // Construct performs the call. It panics exactly when the library panics.
 func Construct(o Op) interface{} {
+	o = o.atTerm()
 	switch o.K {
 	case "solar":
 		return calendar.NewSolar(o.a(0), o.a(1), o.a(2), o.a(3), o.a(4), o.a(5))
